@@ -42,7 +42,9 @@ func c01Rebuild(v *verifFS) (*persisters.MetadataPersister, error) {
 	return r, err
 }
 
-func c01Norm(name string) string { return strings.TrimPrefix(name, "/") }
+// c01Norm: the stored spelling of a name is not observable through the API (a live index keeps "/d/n/" where a rebuilt
+// one stores "d/n"); the base name and the path it is found under are.
+func c01Norm(name string) string { return strings.TrimSuffix(strings.TrimPrefix(name, "/"), "/") }
 
 // c01SameView compares what the API shows for one path in the live and in the rebuilt index.
 func c01SameView(l, r config.MetadataConfig, path string) bool {
@@ -246,8 +248,14 @@ func Harness_C01_archive_level_calls() {
 			Path:    path,
 		}
 	}
-	kind := vm.Choice("call", 4)
+	kind := vm.Choice("call", 5)
 	switch kind {
+	case 4: // archive of a directory the way tar names it (trailing slash), then a metadata change through the filesystem
+		members = append(members, config.FileConfig{
+			GetFile: func() (io.ReadSeekCloser, error) { return &c01Src{}, nil },
+			Info:    c01Info{name: "n", size: 0, mode: os.ModeDir | 0o750},
+			Path:    "/d/n/",
+		})
 	case 0, 1: // update of an existing file: content (replace) or metadata only
 		members = append(members, mk("/d/g", size))
 	case 2: // archive of a new file
@@ -273,13 +281,26 @@ func Harness_C01_archive_level_calls() {
 		_, err = v.Env.WriteOps.Archive(getSrc, config.CompressionLevelFastestKey, false, false)
 	}
 	vm.Assert("C01.archive_level_call_ok", err == nil)
+	if kind == 4 && err == nil {
+		switch vm.Choice("then", 3) {
+		case 0:
+			err = v.FS.Chmod("/d/n", 0o700)
+		case 1:
+			err = v.FS.Chown("/d/n", 5, 6)
+		case 2:
+			err = v.FS.Mkdir("/d/n/sub", 0o755)
+		}
+		vm.Assert("C01.archive_level_followup_ok", err == nil)
+		// the running instance keeps working: the next call finds the end of the tape
+		vm.Assert("C01.archive_level_next_write_ok", v.FS.Mkdir("/d/after", 0o755) == nil)
+	}
 	r, rerr := c01Rebuild(v)
 	vm.Assert("C01.archive_level_rebuild_succeeds", rerr == nil)
 	if rerr != nil {
 		return
 	}
 	rm := config.MetadataConfig{Metadata: r}
-	for _, u := range []string{"/", "/d", "/d/g", "/d/n", "/d/m"} {
+	for _, u := range []string{"/", "/d", "/d/g", "/d/n", "/d/m", "/d/n/sub", "/d/after"} {
 		vm.Assert("C01.archive_level_same_view_after_rebuild", c01SameView(v.Env.Metadata, rm, u))
 	}
 	for _, a := range v.Env.P.VerifRows() {
